@@ -90,6 +90,97 @@ func (lo *LockOrder) repoCallees(c ssa.CallInstruction) []*ssa.Function {
 	return out
 }
 
+// paramCallIdx: indices of f's function-typed parameters that f calls directly (higher-order helper: withLock(fn)).
+func paramCallIdx(f *ssa.Function) map[int]bool {
+	out := map[int]bool{}
+	allInstrs(f, func(i ssa.Instruction) {
+		cc := callCommon(i)
+		if cc == nil || cc.IsInvoke() {
+			return
+		}
+		if prm, ok := cc.Value.(*ssa.Parameter); ok {
+			for k, q := range f.Params {
+				if q == prm {
+					out[k] = true
+				}
+			}
+		}
+	})
+	return out
+}
+
+// funcOfValue: the in-repo function a function-typed argument denotes (closure literal, function, bound method value).
+func (lo *LockOrder) funcOfValue(v ssa.Value) *ssa.Function {
+	v = stripConv(v)
+	switch x := v.(type) {
+	case *ssa.MakeClosure:
+		f, _ := x.Fn.(*ssa.Function)
+		if f == nil {
+			return nil
+		}
+		if lo.P.InRepo(f) && f.Synthetic == "" {
+			return f
+		}
+		// bound method wrapper: the method it forwards to
+		var target *ssa.Function
+		allInstrs(f, func(i ssa.Instruction) {
+			if cc := callCommon(i); cc != nil {
+				if g := cc.StaticCallee(); g != nil && lo.P.InRepo(g) {
+					target = g
+				}
+			}
+		})
+		return target
+	case *ssa.Function:
+		if lo.P.InRepo(x) {
+			return x
+		}
+	}
+	return nil
+}
+
+// calleesCtx resolves the synchronous in-repo callees of call instruction c in function f with one level of context for
+// higher-order helpers: a call of f's own function-typed parameter is not resolved here (the caller of f accounts for
+// it), and a call of a helper that invokes its parameter contributes the function actually passed at this site.
+// ok=false means the site could not be specialised and the context-insensitive callee set was used.
+func (lo *LockOrder) calleesCtx(f *ssa.Function, c ssa.CallInstruction) []*ssa.Function {
+	cc := c.Common()
+	if !cc.IsInvoke() {
+		if _, isParam := cc.Value.(*ssa.Parameter); isParam && len(lo.P.CallersOf(f)) > 0 && f.Parent() == nil {
+			allSpecialised := true
+			for _, cs := range lo.P.CallersOf(f) {
+				if !lo.P.InRepo(cs.Parent()) {
+					allSpecialised = false
+				}
+			}
+			if allSpecialised {
+				return nil // accounted for at f's call sites
+			}
+		}
+	}
+	out := lo.repoCallees(c)
+	if h := cc.StaticCallee(); h != nil && lo.P.InRepo(h) && h.Parent() == nil {
+		args := callArgs(cc)
+		for idx := range paramCallIdx(h) {
+			if idx < len(args) {
+				if g := lo.funcOfValue(args[idx]); g != nil {
+					out = append(out, g)
+				} else {
+					// unknown function value: fall back to everything the helper may call through that parameter
+					allInstrs(h, func(i ssa.Instruction) {
+						if ci, ok := i.(ssa.CallInstruction); ok {
+							if prm, isP := ci.Common().Value.(*ssa.Parameter); isP && prm == h.Params[idx] {
+								out = append(out, lo.repoCallees(ci)...)
+							}
+						}
+					})
+				}
+			}
+		}
+	}
+	return out
+}
+
 func namedOf(t types.Type) *types.Named {
 	for {
 		if p, ok := t.Underlying().(*types.Pointer); ok {
@@ -190,9 +281,9 @@ func (lo *LockOrder) computeAcquires() {
 			}
 			switch c := i.(type) {
 			case *ssa.Call:
-				calls[f] = append(calls[f], lo.repoCallees(c)...)
+				calls[f] = append(calls[f], lo.calleesCtx(f, c)...)
 			case *ssa.Defer:
-				calls[f] = append(calls[f], lo.repoCallees(c)...)
+				calls[f] = append(calls[f], lo.calleesCtx(f, c)...)
 			}
 		})
 		direct[f] = d
@@ -252,9 +343,9 @@ func BuildLockOrder(p *Prog, ls *Locksets) *LockOrder {
 			var callees []*ssa.Function
 			switch c := i.(type) {
 			case *ssa.Call:
-				callees = lo.repoCallees(c)
+				callees = lo.calleesCtx(f, c)
 			case *ssa.Defer:
-				callees = lo.repoCallees(c)
+				callees = lo.calleesCtx(f, c)
 			default:
 				return
 			}
